@@ -13,6 +13,7 @@
 // One status line per (file, entry) on stdout. Before every step "@<fileindex> <entry> <id> <step>" goes to stderr so that the
 // caller can attribute a sanitizer abort / signal / timeout to the step and restart after it.
 #include "verif_common.h"
+#include <cfloat>
 #include <photospline/cinter/splinetable.h>
 #include <signal.h>
 #include <unistd.h>
@@ -69,6 +70,10 @@ static std::vector<double> candidates(const ST& t, uint32_t d){
   for(int j=0;j<6;j++) if(idx[j]<nk){ double v=t.knots[d][idx[j]]; c.push_back(v); c.push_back(std::nextafter(v,-INFINITY)); c.push_back(std::nextafter(v,INFINITY)); }
   if(t.extents){ double lo=t.extents[d][0], hi=t.extents[d][1]; c.push_back(lo); c.push_back(hi); c.push_back(lo+(hi-lo)/2); }
   c.push_back(0.0); c.push_back(-INFINITY); c.push_back(INFINITY); c.push_back(NAN); c.push_back(-1e300); c.push_back(1e300);
+  // far ends of the double range (differences with knots of the other sign overflow) and points inside the fully supported range
+  // computed without overflow
+  c.push_back(1e308); c.push_back(-1e308); c.push_back(1.7e308); c.push_back(-1.7e308); c.push_back(DBL_MAX); c.push_back(-DBL_MAX); c.push_back(5e-324);
+  if(nk>2*o+1){ double a=t.knots[d][o], b=t.knots[d][nk-o-1]; c.push_back(a/2+b/2); c.push_back(a/4+3*(b/4)); c.push_back(3*(a/4)+b/4); }
   return c;
 }
 
